@@ -181,7 +181,12 @@ def _kw(wt, p, dtype='float64'):
     if wt is not None:
         dt = np.dtype(dtype)
         wdt = np.empty(0, dtype=dt).real.dtype   # weights must be castable to the space dtype
-        kw['weighting'] = np.asarray(wt[1], dtype=wdt) if wt[0] == 'a' else wt[1]
+        if wt[0] == 'a':
+            warr = np.asarray(wt[1], dtype=wdt)
+            # optional third entry: memory layout of the weight array itself
+            kw['weighting'] = np.asfortranarray(warr) if len(wt) > 2 and wt[2] == 'F' else warr
+        else:
+            kw['weighting'] = wt[1]
     if p != 2:
         kw['exponent'] = p
     return kw
@@ -475,6 +480,24 @@ def tensor_zoo(ctx, thr):
                         if dt == 'int64' and wk in ('array_gen', 'const_gen'):
                             continue
                         out.append(('T', shape, dt, layout, mk_wt(rng, wk, shape, dt), p))
+    # memory layout of the WEIGHT ARRAY x layout of the element x finite exponents, on
+    # non-square 2-d / 3-d shapes with generic (non-symmetric) weights: a ravel-order mix-up
+    # pairs weights with the wrong entries only when both are F-contiguous
+    for shape in [(3, 4), (2, 5), (2, 3, 4), (4, 1, 3)]:
+        size = int(np.prod(shape))
+        for wl in ['C', 'F']:
+            for layout in ['C', 'F']:
+                for p in [1, 1.5, 3, 2, INF]:
+                    for dt in ['float64', 'complex128']:
+                        if dt == 'complex128' and quick and rng.random() > 0.3:
+                            continue
+                        if p in (2, INF) and quick and rng.random() > 0.4:
+                            continue
+                        wvals = [rng.choice([0.25, 0.5, 1.0, 1.5, 2.0, 3.0, 5.0, 7.0])
+                                 for _ in range(size)]
+                        wvals[0], wvals[-1] = 11.0, 0.125   # never transposition-symmetric
+                        wt = ('a', np.array(wvals).reshape(shape).tolist(), wl)
+                        out.append(('T', shape, dt, layout, wt, p))
     bigs = []
     for shape in big:
         for dt in ['float64', 'complex128', 'float32']:
@@ -704,6 +727,8 @@ def sig_of(d):
                 'c' if is_complex(d) else 'r', p_tags(d))
     wt = d[d_wt(d)]
     wk = 'none' if wt is None else wt[0]
+    if wt is not None and len(wt) > 2:
+        wk += wt[2]            # layout of the weight array
     size = int(np.prod(leaf_shape(d)))
     reg = 'big' if size > 50000 else ('edge' if size >= 49999 else 'small')
     extra = ''
